@@ -136,6 +136,10 @@ fn cycle_program(kind: &str, k: usize, with_typename: bool, position: usize) -> 
                     sel.push(Sel::obj(hop, if kind == "interface" { vec![Sel::typename(), Sel::Spread(next)] } else { vec![Sel::Spread(next)] }));
                 }
             }
+            3 => {
+                // under an inline fragment on the SAME type (on an interface / union the fragment's own type)
+                sel.push(Sel::Inline { on: Some(ty.into()), sub: vec![Sel::Spread(next)] });
+            }
             _ => {
                 // under an inline fragment on a possible type
                 let on = if kind == "object" { "Person" } else { "Dog" };
@@ -173,7 +177,7 @@ pub fn run(outdir: &Path, tier: &str, seed: u64, shards: usize, _replay: Option<
     for kind in ["object", "interface", "union"] {
         for k in 1..=6 {
             for with_typename in [true, false] {
-                for position in 0..3 {
+                for position in 0..4 {
                     progs.push((format!("spread cycle/{}/len{}/{}/pos{}", kind, k, if with_typename { "typename" } else { "no typename" }, position), cycle_program(kind, k, with_typename, position)));
                 }
             }
